@@ -69,6 +69,8 @@ def plan_text(plan):
         if a.get('stack'):
             fl.append('stack=%d' % a['stack'])
         L.append('actor %s %s %s' % (a['id'], a['host'], ' '.join(fl)))
+    for op in plan.get('mops', []):
+        L.append('mop %s' % ' '.join(fnum(x) for x in op))
     for a in plan.get('actors', []):
         for op in a['ops']:
             L.append('op %s %s' % (a['id'], ' '.join(fnum(x) for x in op)))
